@@ -161,21 +161,21 @@ theorem lexAll_bytes {cfg : Cfg} (hs : cfg.up.Sane) (fuel : Nat) (st : LexState)
 
 /-! ### the soft-keyword pass only rewrites the token, never a span -/
 
-theorem softKwGo_spans (ts : List Spanned) (sol : Bool) :
-    (softKwGo ts sol).map (fun t => (t.cs, t.ce, t.bs, t.be)) = ts.map (fun t => (t.cs, t.ce, t.bs, t.be)) := by
-  induction ts generalizing sol with
+theorem softKwGo_spans (ts : List Spanned) (st : SoftSt) :
+    (softKwGo ts st).map (fun t => (t.cs, t.ce, t.bs, t.be)) = ts.map (fun t => (t.cs, t.ce, t.bs, t.be)) := by
+  induction ts generalizing st with
   | nil => simp [softKwGo]
   | cons t ts ih => simp [softKwGo, ih]
 
-theorem softKwGo_chain {lo hi : Nat} (ts : List Spanned) (sol : Bool) :
-    ChainS lo hi (softKwGo ts sol) ↔ ChainS lo hi ts := by
-  induction ts generalizing lo sol with
+theorem softKwGo_chain {lo hi : Nat} (ts : List Spanned) (st : SoftSt) :
+    ChainS lo hi (softKwGo ts st) ↔ ChainS lo hi ts := by
+  induction ts generalizing lo st with
   | nil => simp [softKwGo]
   | cons t ts ih => simp [softKwGo, ChainS, ih]
 
-theorem softKwGo_mem {ts : List Spanned} {sol : Bool} {t : Spanned} (h : t ∈ softKwGo ts sol) :
+theorem softKwGo_mem {ts : List Spanned} {st : SoftSt} {t : Spanned} (h : t ∈ softKwGo ts st) :
     ∃ t' ∈ ts, t'.cs = t.cs ∧ t'.ce = t.ce ∧ t'.bs = t.bs ∧ t'.be = t.be := by
-  induction ts generalizing sol with
+  induction ts generalizing st with
   | nil => simp [softKwGo] at h
   | cons a ts ih =>
     simp only [softKwGo, List.mem_cons] at h
